@@ -1416,14 +1416,20 @@ func (c *connection) Join(conn net.Conn, id string, dial gen.NetworkDial, tail [
 			defer c.log.Trace("connection %s left the pool", conn.RemoteAddr().String())
 		}
 
+		rejoined := false
 	re: // reconnected
 		if lib.Trace() {
 			c.log.Trace("joined new connection %s to the pool", conn.RemoteAddr().String())
 		}
 
-		c.serve(pi.connection, tail)
+		received := c.serve(pi.connection, tail)
 
-		if dial != nil {
+		// A link that has been re-dialled and was closed again before anything
+		// arrived on it: the peer accepts the join handshake but does not serve
+		// this connection any more (it has lost or dropped it). Dialing again
+		// would go on for ever; give the link up, and with the last link the
+		// connection.
+		if dial != nil && (rejoined == false || received > 0) {
 			pool_dsn := []string{}
 			pool_dsn = append(pool_dsn, c.pool_dsn...)
 			rand.Shuffle(len(pool_dsn), func(i, j int) {
@@ -1439,8 +1445,13 @@ func (c *connection) Join(conn net.Conn, id string, dial gen.NetworkDial, tail [
 				if err != nil {
 					continue
 				}
+				// the writer of the link must follow it to the new connection
+				c.pool_mutex.Lock()
 				pi.connection = nc
+				pi.fl = lib.NewFlusher(nc)
+				c.pool_mutex.Unlock()
 				tail = t
+				rejoined = true
 
 				goto re
 			}
@@ -1482,7 +1493,9 @@ func (c *connection) Terminate(reason error) {
 	}
 }
 
-func (c *connection) serve(conn net.Conn, tail []byte) {
+// serve reads frames from the link until it fails. It returns the number of
+// frames received.
+func (c *connection) serve(conn net.Conn, tail []byte) int {
 
 	recvN := 0
 	recvNQ := len(c.recvQueues)
@@ -1502,21 +1515,21 @@ func (c *connection) serve(conn net.Conn, tail []byte) {
 			}
 			lib.ReleaseBuffer(buf)
 			conn.Close()
-			return
+			return recvN
 		}
 
 		if buf.B[0] != protoMagic {
 			c.log.Error("recevied malformed packet from %s (incorrect proto)", conn.RemoteAddr())
 			lib.ReleaseBuffer(buf)
 			conn.Close()
-			return
+			return recvN
 		}
 
 		if buf.B[1] != protoVersion {
 			c.log.Error("recevied malformed packet from %s (incorrect proto version)", conn.RemoteAddr())
 			lib.ReleaseBuffer(buf)
 			conn.Close()
-			return
+			return recvN
 		}
 
 		recvN++
@@ -2927,6 +2940,7 @@ func (c *connection) send(buf *lib.Buffer, order uint8, compression gen.Compress
 		n := int(order) % l
 		pi = c.pool[n]
 	}
+	fl := pi.fl
 	c.pool_mutex.RUnlock()
 
 	atomic.AddUint64(&c.messagesOut, 1)
@@ -2937,7 +2951,7 @@ func (c *connection) send(buf *lib.Buffer, order uint8, compression gen.Compress
 	// c.transitOut++
 	// if buf.Len() < protoFragmentSize {
 
-	pi.fl.Write(buf.B)
+	fl.Write(buf.B)
 	lib.ReleaseBuffer(buf)
 	return nil
 
